@@ -1917,12 +1917,19 @@ func (h *fsmHandler) recvMessageloop(ctx context.Context, conn net.Conn, holdtim
 					useRevisedError := h.fsm.isTreatAsWithdraw
 
 					var validationErr error
-					if handling == bgp.ERROR_HANDLING_NONE {
+					// RFC 7606 3.h: the strongest reaction any error of the message calls for
+					// applies, so the attribute checks also run when the decoder has discarded
+					// an attribute (the discarded attribute is no longer in the list; after a
+					// treat-as-withdraw class decoding error the list may hold attributes
+					// that are only partly decoded, and the routes are withdrawn anyway).
+					if handling == bgp.ERROR_HANDLING_NONE || handling == bgp.ERROR_HANDLING_ATTRIBUTE_DISCARD {
 						ok, ve := bgp.ValidateUpdateMsg(body, rfMap, h.fsm.isEBGP, h.fsm.isConfed, h.allowLoopback)
 						if !ok {
-							validationErr = ve
-							handling = h.handlingError(m, ve, useRevisedError)
-							fmsg.handling = handling
+							if hv := h.handlingError(m, ve, useRevisedError); hv > handling {
+								validationErr = ve
+								handling = hv
+								fmsg.handling = handling
+							}
 						}
 					}
 					if handling == bgp.ERROR_HANDLING_SESSION_RESET {
